@@ -12,7 +12,9 @@ of a finite set of atoms per run). A branch on a value the valuation does not de
 No repository code runs: this interprets the MIR facts dumped by the driver.
 """
 import copy
+import os
 import re
+import sys
 from . import mir
 
 TOP = ("top",)
@@ -817,8 +819,9 @@ class Interp:
                         rd = self.deref_val(r) if r is not None and r[0] != "ref" else r
                         if self.known(r) or (r is not None and r[0] == "adt" and r[1] != "?"):
                             return r
-                    except Unsupported:
-                        pass
+                    except Unsupported as ex_:
+                        if os.environ.get("FEVAL_DEBUG"):
+                            print("feval: body of %s not evaluable on opaque arguments: %s" % (p, ex_), file=sys.stderr)
                     self.heap, self.events = saved_heap, saved_events
                     break
             self.events.append(("call", name, [d[1] for d in dargs], site))
@@ -828,7 +831,9 @@ class Interp:
             if p in self.f.bodies and not self.f.bodies[p].rec.get("derived"):
                 try:
                     return self.call_body(p, args, depth + 1)
-                except Unsupported:
+                except Unsupported as ex_:
+                    if os.environ.get("FEVAL_DEBUG"):
+                        print("feval: body of %s not evaluable: %s" % (p, ex_), file=sys.stderr)
                     break
         # --- uninterpreted
         self.events.append(("call", name, [self.tokname(a) for a in args], site))
@@ -838,6 +843,15 @@ class Interp:
         if all("?" not in n for n in names):
             return Tok("%s(%s)" % (name, ",".join(names)))
         return TOP
+
+    def drive(self, fut, depth=1):
+        """run a crate-local future (a coroutine value) to completion in place - for oracles that model an executor (a spawned
+        task runs at some point); returns its output, or None if `fut` is not a crate-local coroutine"""
+        fv = self.deref_val(fut)
+        if fv is not None and fv[0] == "closure" and fv[1] in self.f.bodies and self.f.bodies[fv[1]].rec.get("closure_kind") == "coroutine":
+            self._polling = True
+            return self.call_body(fv[1], [fv, Tok("task-context")], depth + 1)
+        return None
 
     def apply(self, fv, argv, depth=1):
         """call a closure / fn-item value with the given arguments (for oracles that model a
